@@ -211,10 +211,14 @@ def heap_replay(ck, bdir, seqs):
 # --------------------------------------------------------------------------
 # end-to-end replay
 
-def loom_name(l, sysd=None):
+def loom_name(l, sysd=None, proc=0):
     # looms that share a host: "nodeH.<l>" (the offset table is keyed by host = name before the first dot)
     if sysd is not None and sysd.get("_samehost"):
         return "nodeH.%d" % l
+    # _split: the model loom is the HOST; every process of it is a loom of its own ("node<l>.p<k>", one loom
+    # per MPI process), and every process carries a rank, placed round-robin over the hosts
+    if sysd is not None and sysd.get("_split"):
+        return "node%d.p%d" % (l, proc)
     return "node%d.x" % l
 
 
@@ -232,14 +236,24 @@ def layout(sysd):
     tot = {}
     for l in sysd["loom"]:
         tot[l] = tot.get(l, 0) + 1
+    split = bool(sysd.get("_split"))
     for i, l in enumerate(sysd["loom"], 1):
         j = per.get(l, 0)
         per[l] = j + 1
         pid = 1000 * l + 1 + j // 2
         tid = 100 + i
         out.append({"i": i, "loom": l, "pid": pid, "tid": tid, "cpu": j, "app": 10 * l + 1 + j // 2,
-                    "first_of_loom": j == 0, "ncpus": tot[l],
-                    "rel": "loom.%s/proc.%d/thread.%d" % (loom_name(l, sysd), pid, tid)})
+                    "first_of_loom": j == 0, "ncpus": tot[l], "proc": j // 2 if split else 0,
+                    "rel": "loom.%s/proc.%d/thread.%d" % (loom_name(l, sysd, j // 2), pid, tid)})
+    if split:
+        procs = sorted({(st["proc"], st["loom"]) for st in out})      # round-robin over the hosts
+        for st in out:
+            mates = [x for x in out if (x["loom"], x["proc"]) == (st["loom"], st["proc"])]
+            st["cpu"] = mates.index(st)
+            st["first_of_loom"] = st["cpu"] == 0
+            st["ncpus"] = len(mates)
+            st["rank"] = procs.index((st["proc"], st["loom"]))
+            st["nranks"] = len(procs)
     return out
 
 
@@ -280,16 +294,16 @@ def materialise(root, sysd, order, table_in_dir):
             extra = {"ovni.mark.%d.title" % MARK_TYPE: "event id",
                      "ovni.mark.%d.chan_type" % MARK_TYPE: "single"}
         cpus = [(j, 10 * st["loom"] + j) for j in range(st["ncpus"])] if st["first_of_loom"] else None
-        meta = obs.thread_meta(st["tid"], st["pid"], loom_name(st["loom"], sysd), app_id=st["app"],
-                               cpus=cpus, extra=extra)
-        obs.write_stream(root, loom_name(st["loom"], sysd), st["pid"], st["tid"], meta,
+        meta = obs.thread_meta(st["tid"], st["pid"], loom_name(st["loom"], sysd, st["proc"]), app_id=st["app"],
+                               cpus=cpus, extra=extra, rank=st.get("rank"), nranks=st.get("nranks"))
+        obs.write_stream(root, loom_name(st["loom"], sysd, st["proc"]), st["pid"], st["tid"], meta,
                          stream_bytes(st, sysd["clocks"][idx], K(sysd)))
     if table_in_dir:
         with open(os.path.join(root, "clock-offsets.txt"), "w") as f:
             f.write(offsets_table(sysd))
     if sysd.get("_emptypart"):
         # a stream that is not a thread (the emulator ignores it) and holds no event at all
-        d = os.path.join(root, "loom.%s" % loom_name(lay[0]["loom"], sysd), "proc.%d" % lay[0]["pid"], "aux.0")
+        d = os.path.join(root, "loom.%s" % loom_name(lay[0]["loom"], sysd, lay[0]["proc"]), "proc.%d" % lay[0]["pid"], "aux.0")
         os.makedirs(d, exist_ok=True)
         with open(os.path.join(d, "stream.json"), "w") as f:
             json.dump({"version": 3, "ovni": {"part": "aux", "lib": {"version": "1.11.0", "commit": "x"}}}, f)
@@ -299,7 +313,7 @@ def materialise(root, sysd, order, table_in_dir):
         # traces gathered from several nodes with `ln -s`: the loom (or thread) directory of the last stream
         # lives outside the trace directory and is reached through a symbolic link of the same name
         st = lay[max(order)]
-        ldir = os.path.join(root, "loom.%s" % loom_name(st["loom"], sysd))
+        ldir = os.path.join(root, "loom.%s" % loom_name(st["loom"], sysd, st["proc"]))
         target = ldir if sysd["_symlink"] == "loom" else os.path.join(ldir, "proc.%d" % st["pid"], "thread.%d" % st["tid"])
         if os.path.isdir(target) and not os.path.islink(target):
             ext = root.rstrip("/") + ".ext"
@@ -634,6 +648,20 @@ def main(pid, tier):
             c2 = json.loads(json.dumps(c))
             c2["_samehost"] = True
             extra_cases.append(c2)
+    #  _split    : systems with a host of two processes and another host with a different offset are also
+    #              written with one loom per process and ranks placed round-robin over the hosts (the looms
+    #              of one host are then not neighbours in the rank order the emulator sorts them by)
+    nsplit = 0
+    for c in cases:
+        ls = c["loom"]
+        if (max(ls.count(l) for l in set(ls)) >= 3 and len(set(ls)) >= 2 and len({c["off"][l - 1] for l in set(ls)}) >= 2
+                and nsplit < (150 if tier == "quick" else 3000)):
+            c2 = json.loads(json.dumps(c))
+            c2.pop("_scale", None)
+            c2["_split"] = True
+            extra_cases.append(c2)
+            nsplit += 1
+    ck.notes["systems"]["one_loom_per_process_round_robin_ranks"] = nsplit
     #  _offfmt   : notation of the offsets in the table (integer as ovnisync writes it / exponent / fixed)
     for i, c in enumerate(cases):
         if i % 4 == 1:
@@ -657,7 +685,7 @@ def main(pid, tier):
     ck.notes["systems"]["with_a_symlinked_directory"] = nsl
     cases += extra_cases
     ck.notes["systems"]["scaled_clocks"] = sum(1 for c in cases if c.get("_scale"))
-    ck.notes["systems"]["looms_sharing_a_host"] = len(extra_cases)
+    ck.notes["systems"]["looms_sharing_a_host"] = len(extra_cases) - nsplit
     args = [(bdir, shim, c, core.seed() * 1000003 + i) for i, c in enumerate(cases)]
     results = core.pmap(run_case, args, workers=core.NCPU)
     ck.phase("replay")
